@@ -1,6 +1,8 @@
 /- Driver/Dsf.lean — DSF files with an ID3 tag at the metadata pointer: save, delete, walk, read -/
 import MutagenModel.Model.Container.Dsf
 import MutagenModel.Model.Container.DsfFull
+import MutagenModel.Model.Container.DsfM
+import Driver.FileOps
 import Driver.Util
 import Driver.FlacC
 namespace Driver
@@ -20,6 +22,14 @@ def dsfOp (a : Args) : String :=
       | some n => fun _ _ => n
       | none => fun p _ => if p < 0 then 0 else p
     ex (saveX (a.bytes "data") (a.nat "vmaj" 4) (a.bytes "frames") ans)
+  | "savem" =>
+    -- the file-operation program under a fault schedule / capacity (`fail=` `short=` `cap=` `leak=`)
+    let ans : Int → Int → Int := match (a.str "ans" "keep").toInt? with
+      | some n => fun _ _ => n
+      | none => fun p _ => if p < 0 then 0 else p
+    showResult (saveEntry (a.nat "vmaj" 4) (a.bytes "frames") ans (envOf a) { data := a.bytes "data", pos := a.nat "pos" 0 })
+  | "deletem" =>
+    showResult (deleteEntry (a.nat "method" 0 == 1) (envOf a) { data := a.bytes "data", pos := a.nat "pos" 0 })
   | "load" =>
     match load (a.bytes "data") with
     | .error e => s!"err {e.name}"
